@@ -90,12 +90,18 @@ macro_rules! wr_obj {
     }};
 }
 
+/// growable-vector backends start from a vector that already holds a few zero words
+/// (a writer must overwrite from the start and never shorten what is behind the cursor)
+pub fn vec_presize(cap_words: usize) -> usize {
+    cap_words % 7
+}
+
 macro_rules! mk_writer_ew {
     ($E:ty, $W:ty, $cfg:expr, $cap:expr) => {{
         let log: Log = Rc::new(RefCell::new(Vec::new()));
         match ($cfg.backend, $cfg.wrap) {
             ("vec", "none") => {
-                let store: *mut Vec<$W> = Box::into_raw(Box::new(Vec::<$W>::new()));
+                let store: *mut Vec<$W> = Box::into_raw(Box::new(vec![0 as $W; vec_presize($cap)]));
                 let inner = MemWordWriterVec::new(PtrVec(store));
                 let bw = BufBitWriter::<$E, _>::new(Recording { inner, log: log.clone() });
                 wr_obj!($E, bw, log, Box::new(move || words_to_bytes(unsafe { &*store })),
@@ -124,7 +130,7 @@ macro_rules! mk_writer_ew {
                     Some(|w: BufBitWriter<$E, Recording<Recording<NullSink<$W>>>>| w.into_inner().is_ok()))
             }
             ("vec", "count") => {
-                let store: *mut Vec<$W> = Box::into_raw(Box::new(Vec::<$W>::new()));
+                let store: *mut Vec<$W> = Box::into_raw(Box::new(vec![0 as $W; vec_presize($cap)]));
                 let inner = MemWordWriterVec::new(PtrVec(store));
                 let bw = BufBitWriter::<$E, _>::new(Recording { inner, log: log.clone() });
                 let cw = CountBitWriter::<$E, _>::new(bw);
@@ -139,7 +145,7 @@ macro_rules! mk_writer_ew {
                 }) as Box<dyn DynWriter>
             }
             ("vec", "dbg") => {
-                let store: *mut Vec<$W> = Box::into_raw(Box::new(Vec::<$W>::new()));
+                let store: *mut Vec<$W> = Box::into_raw(Box::new(vec![0 as $W; vec_presize($cap)]));
                 let inner = MemWordWriterVec::new(PtrVec(store));
                 let bw = BufBitWriter::<$E, _>::new(Recording { inner, log: log.clone() });
                 let cw = DbgBitWriter::<$E, _>::new(bw);
@@ -154,7 +160,7 @@ macro_rules! mk_writer_ew {
                 }) as Box<dyn DynWriter>
             }
             ("vec", "countdbg") => {
-                let store: *mut Vec<$W> = Box::into_raw(Box::new(Vec::<$W>::new()));
+                let store: *mut Vec<$W> = Box::into_raw(Box::new(vec![0 as $W; vec_presize($cap)]));
                 let inner = MemWordWriterVec::new(PtrVec(store));
                 let bw = BufBitWriter::<$E, _>::new(Recording { inner, log: log.clone() });
                 let cw = CountBitWriter::<$E, _>::new(DbgBitWriter::<$E, _>::new(bw));
